@@ -300,6 +300,7 @@ KINDS = {
     "hit-multi": lambda: env_of(query="a=1&a=3&a=2&b=x", headers={"X-Tag": "t3"}),
     "hit-post": lambda: env_of("POST", "/hit", body=b"x=1", ctype="application/x-www-form-urlencoded"),
     "item": lambda: env_of(path="/item/42"),
+    "item2": lambda: env_of(path="/item/7"),
     "item-bad": lambda: env_of(path="/item/abc"),
     "404": lambda: env_of(path="/nothing"),
     "405": lambda: env_of("DELETE", "/post"),
@@ -562,7 +563,8 @@ def generate(rng, tier):
                                          ",".join("%s%s" % (rng.choice("AB"), rng.choice(names)) for _ in range(3))))
     # interleavings
     inter = ["hit", "hit2", "stream", "stream2", "crash", "abort403", "form", "json", "debug-info", "auth-none", "auth-ok",
-             "item", "404", "range", "login", "static", "listing", "hit-post", "badjson"]
+             "item", "item2", "item", "item2", "abort418", "raw", "404", "range", "login", "static", "listing", "hit-post",
+             "badjson"]
     for _ in range(2500 if big else 200):
         k = rng.choice([2, 2, 3])
         kinds = [rng.choice(inter) for _ in range(k)]
@@ -571,7 +573,7 @@ def generate(rng, tier):
         for a, b in itertools.product(["hit", "stream", "crash", "debug-info", "auth-ok", "form"], repeat=2):
             cases.append("C17 interall 0 %s,%s" % (a, b))
     else:
-        for a, b in [("hit", "stream"), ("debug-info", "404"), ("crash", "hit2")]:
+        for a, b in [("hit", "stream"), ("debug-info", "404"), ("crash", "hit2"), ("item", "item2"), ("abort403", "abort418")]:
             cases.append("C17 interall 0 %s,%s" % (a, b))
     return cases
 
